@@ -1,18 +1,31 @@
 import CashewsVerif.Driver.Proto
 import CashewsVerif.Model.Disable
-/- Driver for C17: routing table + control state + public commands, one answer per request line.
+/- Driver for C17: a history of registrations, control operations and public commands (through the
+default middleware stack), one answer per request line.
 
 Strings: `-` = "", otherwise code points joined by `.` (e.g. `97.58` = "a:").
 Command sets: `-` = none given, otherwise `Command.value`s joined by `,`. -/
 open CashewsVerif CashewsVerif.Proto CashewsVerif.Route CashewsVerif.Disable
 
 structure St where
-  t : Table
-  w : World
+  /-- routing table, control state, initialised backends, contexts inside invalidate_further() -/
+  s : Sys
   /-- decorated functions with overlapping calls: id ↦ (protected, state) -/
   fns : List (Nat × Bool × CSt)
 
-def St.fresh : St := ⟨Table.empty, World.init true, []⟩
+def St.fresh : St := ⟨Sys.fresh, []⟩
+
+def St.t (st : St) : Table := st.s.t
+def St.w (st : St) : World := st.s.w
+
+/-- one operation of the history model; the answer line of an operation that answers `ok` / `NC` -/
+def St.hop (st : St) (op : HOp) : St × String :=
+  let r := hstep st.s op
+  ({ st with s := r.1 },
+    match r.2 with
+    | .done => "ok"
+    | .ctl nc => if nc then "NC" else "ok"
+    | .cmd _ => "?")
 
 def St.fn? (st : St) (fid : Nat) : Option (Bool × CSt) :=
   (st.fns.find? fun x => x.1 == fid).map fun x => x.2
@@ -42,6 +55,13 @@ def showCall (c : Call) : String :=
 
 def showCalls (cs : List Call) : String :=
   if cs.isEmpty then "-" else ";".intercalate (cs.map showCall)
+
+def showBCall : BCall → String
+  | .cmd c => showCall c
+  | .init tg => s!"{showTarget tg}:init:"
+
+def showBCalls (cs : List BCall) : String :=
+  if cs.isEmpty then "-" else ";".intercalate (cs.map showBCall)
 
 def showSlot : Slot → String
   | .dflt => "D"
@@ -107,9 +127,24 @@ def step (st : St) (line : String) : St × String :=
   | ["case"] => (St.fresh, "ok")
   | ["cmds"] => (st, ",".intercalate (Cmd.all.map Cmd.name))
   | ["reg", p, b] =>
+    -- `cache.setup(url, prefix=p)` by task 0 followed by `await backend.init()`
     match parseStr? p, b.toNat? with
-    | some p, some b => ({ st with t := st.t.add p b }, "ok")
+    | some p, some b => ((st.hop (.setup 0 p b false)).1.hop (.initB b))
     | _, _ => (st, "bad-op")
+  | ["setup", c, p, b, dis, lazy_] =>
+    -- `cache.setup(url, prefix=p, disable=dis)` by task c; lazy=0: followed by `await backend.init()`
+    match c.toNat?, parseStr? p, b.toNat?, parseTx? dis, parseTx? lazy_ with
+    | some c, some p, some b, some dis, some lazy_ =>
+      let st' := (st.hop (.setup c p b dis)).1
+      if lazy_ then (st', "ok") else st'.hop (.initB b)
+    | _, _, _, _, _ => (st, "bad-op")
+  | ["inv", c, on] =>
+    match c.toNat?, parseTx? on with
+    | some c, some on => st.hop (if on then .invEnter c else .invExit c)
+    | _, _ => (st, "bad-op")
+  | ["stack"] => (st, "stack=" ++ ",".intercalate ((chainOf defaultMws).map fun m =>
+      match m with
+      | .autoInit => "auto_init" | .invalidate => "invalidate" | .callbacks => "callbacks" | .disable => "disable"))
   | ["sorted"] => (st, "sorted=" ++ ",".intercalate (st.t.sorted.map showStr))
   | ["route", k] =>
     match parseStr? k with
@@ -117,7 +152,7 @@ def step (st : St) (line : String) : St × String :=
     | none => (st, "bad-op")
   | ["fork", p, c] =>
     match p.toNat?, c.toNat? with
-    | some p, some c => ({ st with w := (ctlStep st.t st.w (.fork p c)).1 }, "ok")
+    | some p, some c => st.hop (.ctl (.fork p c))
     | _, _ => (st, "bad-op")
   | ["dec", c, key, n] =>
     -- n calls of a function decorated with @cache (fresh decorator state)
@@ -160,21 +195,15 @@ def step (st : St) (line : String) : St × String :=
     | none => (st, "bad-op")
   | ["disable", c, p, cmds] =>
     match c.toNat?, parseStr? p, parseCmds? cmds with
-    | some c, some p, some cmds =>
-      let r := ctlStep st.t st.w (.disable c cmds p)
-      ({ st with w := r.1 }, if r.2 then "NC" else "ok")
+    | some c, some p, some cmds => st.hop (.ctl (.disable c cmds p))
     | _, _, _ => (st, "bad-op")
   | ["enable", c, p, cmds] =>
     match c.toNat?, parseStr? p, parseCmds? cmds with
-    | some c, some p, some cmds =>
-      let r := ctlStep st.t st.w (.enable c cmds p)
-      ({ st with w := r.1 }, if r.2 then "NC" else "ok")
+    | some c, some p, some cmds => st.hop (.ctl (.enable c cmds p))
     | _, _, _ => (st, "bad-op")
   | ["exitdis", c, p, cmds] =>
     match c.toNat?, parseStr? p, parseCmds? cmds with
-    | some c, some p, some cmds =>
-      let r := ctlStep st.t st.w (.exitDisabling c cmds p)
-      ({ st with w := r.1 }, if r.2 then "NC" else "ok")
+    | some c, some p, some cmds => st.hop (.ctl (.exitDisabling c cmds p))
     | _, _, _ => (st, "bad-op")
   | ["isdis", c, p, cmds] =>
     match c.toNat?, parseStr? p, parseCmds? cmds with
@@ -190,9 +219,11 @@ def step (st : St) (line : String) : St × String :=
   | "cmd" :: c :: tx :: name :: args =>
     match c.toNat?, parseTx? tx, parseFCmd? name args with
     | some c, some tx, some f =>
-      match exec st.t st.w c tx f with
-      | none => (st, "NC")
-      | some (r, cs) => (st, s!"res={showRes r} calls={showCalls cs}")
+      let r := hstep st.s (.cmd c tx f)
+      match r.2 with
+      | .cmd none => ({ st with s := r.1 }, "NC")
+      | .cmd (some (res, cs)) => ({ st with s := r.1 }, s!"res={showRes res} calls={showBCalls cs}")
+      | _ => (st, "bad-op")
     | _, _, _ => (st, "bad-op")
   | _ => (st, "bad-op")
 
